@@ -404,6 +404,37 @@ size_t size(T (&)[N])
 
 // ---------------------------------------------------------------- list
 // Index-linked nodes in one typed pool: pool[0] is the sentinel.  Iterators are (list, index).
+// reverse iterator over any bidirectional model iterator (rbegin() / rend())
+template<class It>
+class reverse_iterator
+{
+public:
+    reverse_iterator() : m_it() {}
+    explicit reverse_iterator(It it) : m_it(it) {}
+    It   base() const { return m_it; }
+    auto operator*() const -> decltype(*It())
+    {
+        It t = m_it;
+        --t;
+        return *t;
+    }
+    auto operator->() const -> decltype(&*It()) { return &**this; }
+    reverse_iterator& operator++()
+    {
+        --m_it;
+        return *this;
+    }
+    reverse_iterator& operator--()
+    {
+        ++m_it;
+        return *this;
+    }
+    bool operator==(const reverse_iterator& o) const { return m_it == o.m_it; }
+    bool operator!=(const reverse_iterator& o) const { return !(m_it == o.m_it); }
+
+private:
+    It m_it;
+};
 template<class T>
 struct __list_node
 {
@@ -492,6 +523,8 @@ public:
     using const_iterator = iterator;
     iterator cbegin() const { return begin(); }
     iterator cend() const { return end(); }
+    std::reverse_iterator<iterator> rbegin() const { return std::reverse_iterator<iterator>(end()); }
+    std::reverse_iterator<iterator> rend() const { return std::reverse_iterator<iterator>(begin()); }
     const T& back() const
     {
         __vf_check(m_size != 0, VF_LIST_BACK_EMPTY);
@@ -1122,6 +1155,8 @@ public:
     using const_iterator = iterator;
     iterator cbegin() const { return begin(); }
     iterator cend() const { return end(); }
+    std::reverse_iterator<iterator> rbegin() const { return std::reverse_iterator<iterator>(end()); }
+    std::reverse_iterator<iterator> rend() const { return std::reverse_iterator<iterator>(begin()); }
     iterator find(const K& k) const { return const_cast<__ordered_tab*>(this)->find(k); }
     size_t   count(const K& k) const { return const_cast<__ordered_tab*>(this)->count(k); }
     size_t count(const K& k)
